@@ -256,7 +256,8 @@ func (b *batchRun) itemOf(v any) (int, int, bool) {
 }
 
 // the user's exec function (common part): entry event, gate, exit event
-func (b *batchRun) exec(arg Obs) (any, error) {
+// exec returns (value, error carried by an error Result, Go error)
+func (b *batchRun) exec(arg Obs) (any, error, error) {
 	item := -1
 	if arg.Tok > 0 && arg.Tok%1000 == 0 {
 		item = arg.Tok / 1000
@@ -281,7 +282,7 @@ func (b *batchRun) exec(arg Obs) (any, error) {
 	case pc != nil:
 		select {
 		case <-pc.ch:
-		case <-time.After(20 * time.Second):
+		case <-time.After(8 * time.Second):
 			b.mu.Lock()
 			b.stuck = true
 			b.mu.Unlock()
@@ -322,11 +323,14 @@ func (b *batchRun) exec(arg Obs) (any, error) {
 	if o.Out == "ok" {
 		ev["val"] = valTok(item, k)
 		b.log(ev)
-		return b.reg.Payload(valTok(item, k)), nil
+		return b.reg.Payload(valTok(item, k)), nil, nil
 	}
 	ev["err"] = errTok(item, k)
 	b.log(ev)
-	return nil, b.reg.Err(errTok(item, k))
+	if o.Out == "eres" {
+		return nil, b.reg.Err(errTok(item, k)), nil
+	}
+	return nil, nil, b.reg.Err(errTok(item, k))
 }
 
 func (b *batchRun) fallback(prep any, err error) (any, error) {
@@ -507,12 +511,18 @@ func (b *batchRun) build() *flyt.BatchNodeBuilder {
 		})
 	}
 	if cfg.ExSty == "a" {
-		bn.WithExecFuncAny(func(ctx context.Context, p any) (any, error) { return b.exec(b.reg.ObserveAny(p)) })
+		bn.WithExecFuncAny(func(ctx context.Context, p any) (any, error) {
+			v, _, err := b.exec(b.reg.ObserveAny(p))
+			return v, err
+		})
 	} else {
 		bn.WithExecFunc(func(ctx context.Context, p flyt.Result) (flyt.Result, error) {
-			v, err := b.exec(b.reg.ObserveResult(p))
+			v, eres, err := b.exec(b.reg.ObserveResult(p))
 			if err != nil {
 				return flyt.Result{}, err
+			}
+			if eres != nil {
+				return flyt.NewErrorResult(eres), nil
 			}
 			return flyt.NewResult(v), nil
 		})
@@ -621,7 +631,9 @@ func (b *batchRun) controller() {
 var batchSettle = 1 * time.Millisecond
 
 func runBatchScenario(cfg BatchCfg, sc *BatchScript, seed int64) []Event {
-	b := &batchRun{settle: batchSettle, cfg: cfg, sc: sc, reg: NewRegistry(), store: flyt.NewSharedStore(), gids: map[int64]int{}, att: map[int]int{},
+	reg := NewRegistry()
+	reg.NoTypedNil = true
+	b := &batchRun{settle: batchSettle, cfg: cfg, sc: sc, reg: reg, store: flyt.NewSharedStore(), gids: map[int64]int{}, att: map[int]int{},
 		parkCh: make(chan struct{}, 1), done: make(chan struct{}), rng: rand.New(rand.NewSource(seed)), barrier: make(chan struct{})}
 	b.barrierN = cfg.C
 	if b.barrierN > cfg.Items {
@@ -693,7 +705,7 @@ func runBatchScenario(cfg BatchCfg, sc *BatchScript, seed int64) []Event {
 			}
 		}
 		b.log(Event{"ev": "runret", "act": actTok(r.a), "iserr": r.err != nil, "errs": errs, "ctxerr": isCtxErr(r.err, ctx)})
-	case <-time.After(30 * time.Second):
+	case <-time.After(15 * time.Second):
 		close(b.done)
 		b.log(Event{"ev": "hang", "after_ms": int(time.Since(start) / time.Millisecond)})
 	}
